@@ -231,6 +231,32 @@ def _ast_to_schema(ck, repo):
         ck.ob(f"{cls}.bake merges {sorted(parts)} into the extended type", merged == parts, b, b.node, construct=f"extension:{cls}:merges", detail=f"merged {merged}")
         ft = bv.maybe_call("find_type")
         ck.ob(f"{cls}.bake extends the type of the same name", ft is not None and [unparse(a) for a in ft.args] == ["self.name"], b, ft or b.node, construct=f"extension:{cls}:target")
+    # contradiction rule: an attribute defaulted to a list cannot be merged with dict methods (and vice versa)
+    DICT_ONLY, LIST_ONLY = {"items", "keys", "values", "get", "setdefault", "popitem"}, {"append", "extend", "insert", "sort", "reverse"}
+    ext_classes = [c for c in repo.all_classes() if c.name.endswith("Extension") and c.module.relpath.startswith("tartiflette/types/") and "bake" in c.methods and "__init__" in c.methods]
+    ck.count("extension_classes", len(ext_classes), 7)
+    for c in sorted(ext_classes, key=lambda c: c.name):
+        for attr, v in c.self_attrs().items():
+            lit = v.values[-1] if isinstance(v, ast.BoolOp) and isinstance(v.op, ast.Or) else None
+            if not isinstance(lit, (ast.List, ast.Dict)):
+                continue
+            used = set()
+            for m in c.methods.values():
+                for n in walk_no_nested(m.node):
+                    if isinstance(n, ast.Attribute) and isinstance(n.value, ast.Attribute) and unparse(n.value) == f"self.{attr}":
+                        used.add(n.attr)
+            bad = (used & DICT_ONLY) if isinstance(lit, ast.List) else (used & LIST_ONLY)
+            ck.ob(f"{c.name}: the default of `{attr}` ({'list' if isinstance(lit, ast.List) else 'dict'}) agrees with how bake merges it", not bad, c.methods["__init__"],
+                  c.methods["__init__"].node, construct=f"extension:{c.name}:default:{attr}",
+                  detail=f"methods used: {sorted(used)}; a mismatch raises inside bake, GraphQLSchema.bake swallows it and every later extension is silently dropped")
+    se = repo.func("tartiflette/types/schema_extension.py", "GraphQLSchemaExtension.bake")
+    sev = FuncView(se)
+    sd = sev.maybe_call("add_schema_directives")
+    sa_ = [c for c in sev.calls("setattr")]
+    lp = sev.enclosing(sa_[0], (ast.For,)) if sa_ else None
+    ok = sd is not None and [unparse(a) for a in sd.args] == ["self.directives"] and len(sa_) == 1 and lp is not None and unparse(lp.iter) == "self.operations.items()" and \
+        [unparse(a) for a in sa_[0].args] == [se.positional_params[1], "f'{okind}_operation_name'", "otype"]
+    ck.ob("GraphQLSchemaExtension.bake adds the extension's directives and sets every extended root operation name", ok, se, se.node, construct="extension:schema:merges")
     sb = repo.func("tartiflette/schema/schema.py", "GraphQLSchema._bake_extensions")
     sv = FuncView(sb)
     lp = [l for l in sv.loops() if isinstance(l, ast.For) and unparse(l.iter) == "self.extensions"]
